@@ -247,9 +247,10 @@ class G:
         return lst
 
     def some_list(self, fresh=False):
-        if not self.lists or fresh or (len(self.lists) < self.P.get("max_lists", 3) and self.p("_", 0.35)):
+        usable = [x for x in self.lists if x["name"] not in self.search_lists]
+        if not usable or fresh or (len(self.lists) < self.P.get("max_lists", 3) and self.p("_", 0.35)):
             return self.make_list()
-        return self.pick(self.lists)
+        return self.pick(usable)
 
     # -- questions
     LEAF_BASE = ["text", "integer", "decimal", "note", "date", "time", "dateTime", "geopoint", "geotrace", "geoshape",
@@ -341,7 +342,16 @@ class G:
                 while lst["name"] in self.search_lists:
                     lst = self.make_list()
             tcell = f"{base} {lst['name']}"
-            self.plain_lists.add(lst["name"])
+            use_search = table_list is None and base in ("select_one", "select_multiple") and self.p("p_search", 0.0)
+            if use_search:
+                # a list consumed by search() must not be shared with plain selects
+                if lst["name"] in self.plain_lists:
+                    cands = [x for x in self.lists if x["name"] in self.search_lists]
+                    lst = self.pick(cands) if cands and self.p("_", 0.5) else self.make_list()
+                    tcell = f"{base} {lst['name']}"
+                self.search_lists.add(lst["name"])
+            else:
+                self.plain_lists.add(lst["name"])
             if base == "select_multiple":
                 for r in lst["rows"]:
                     r["name"] = r["name"].replace(" ", "_")
@@ -385,7 +395,13 @@ class G:
             if base == "geopoint":
                 opts += ["capture-accuracy=2.5", "warning-accuracy=10", "capture-accuracy=3 warning-accuracy=12 allow-mock-accuracy=true"]
             c["parameters"] = self.pick(opts)
-        if visible and P("p_appearance", 0.15) and table_list is None:
+        if base in ("select_one", "select_multiple") and lst is not None and lst["name"] in self.search_lists and table_list is None:
+            c["appearance"] = self.pick(["search('fruits')", "minimal search('fruits')", "search('fruits', 'matches', 'kind', 'x')"])
+            c.pop("choice_filter", None)
+            c.pop("parameters", None)
+            if c["type"].endswith("or_other"):
+                c["type"] = tcell
+        elif visible and P("p_appearance", 0.15) and table_list is None:
             ap = {"text": ["multiline", "numbers"], "integer": ["thousands-sep"], "select_one": ["minimal", "quick", "likert", "columns-pack"],
                   "select_multiple": ["minimal", "columns"], "date": ["month-year", "no-calendar"], "image": ["annotate", "draw", "signature"],
                   "geopoint": ["maps", "placement-map"], "note": ["custom-x"]}.get(base, ["w1", "custom app"])
